@@ -161,6 +161,38 @@ def run(ctx):
             if W.maxdiff(res[0][1], fwd) > 4e-3 * scale:
                 ctx.violation("'back and forth' differs from one forward propagation by the net distance (%.3g)" % W.maxdiff(res[0][1], fwd), rec,
                               {'what': 'back_and_forth_net'})
+    # ---------------- fields with leading (batch) dimensions [k x h x w], [1 x k x h x w]: zero_pad / custom / crop_center accept them; the result must be
+    # the documented model applied to every 2-D slice (what a fresh propagator returns for each slice).  Rejected layouts are not judged.
+    for _ in range(ctx.n(6, 40)):
+        cfg = make_cfg(rng)
+        h, w = cfg['h'], cfg['w']
+        ap = aperture_of(cfg, rng)
+        kk = rng.choice([2, 3])
+        lead = rng.random() < 0.3
+        d, c = rng.randrange(len(cfg['dists'])), rng.randrange(len(cfg['lams']))
+        us = np.stack([W.rand_field(rng, h, w, 'gauss') for _ in range(kk)])
+        rec = {'cfg': {k_: v for k_, v in cfg.items()}, 'stack': kk, 'leading_one': lead, 'key': (d, c)}
+        ctx.case(('batched_field', cfg['back'], cfg['method'], h, w, kk, lead), True)
+        ctx.count('batched_field/k=%d' % kk)
+        ctx.traces += 1
+        try:
+            p = build(cfg, ap)
+            t = torch.from_numpy(us[None] if lead else us).to(torch.complex64)
+            first = p(t, channel_id=c, depth_id=d).detach().numpy().astype(np.complex128)
+            second = p(t, channel_id=c, depth_id=d).detach().numpy().astype(np.complex128)
+        except Exception:
+            ctx.count('batched_field/rejected-by-implementation')
+            continue
+        first, second = first.reshape(kk, h, w), second.reshape(kk, h, w)
+        for i in range(kk):
+            single = build(cfg, ap)(torch.from_numpy(us[i]).to(torch.complex64), channel_id=c, depth_id=d).detach().numpy().astype(np.complex128)
+            scale = max(1.0, float(np.max(np.abs(single))))
+            if W.maxdiff(first[i], single) > 5e-4 * scale or W.maxdiff(second[i], single) > 5e-4 * scale:
+                ctx.violation('propagator.__call__ on a stack of %d fields: slice %d differs from the same field propagated alone by a fresh propagator '
+                              '(first call %.3g, repeated call %.3g)' % (kk, i, W.maxdiff(first[i], single), W.maxdiff(second[i], single)),
+                              dict(rec, slice=i), {'what': 'batched_field', 'type': 'back_and_forth' if cfg['back'] else 'forward'})
+                break
+
     # ---------------- reconstruct vs per-call results, before and after other calls
     import odak.learn.wave as LW
     for _ in range(ctx.n(4, 30)):
